@@ -60,7 +60,7 @@ func ruleLoopStack(c *Ctx) {
 		}
 		return ""
 	}
-	isPop := func(recv string, s ast.Stmt) string {
+	isPop := func(recv string, s ast.Stmt, defs map[string]localDef) string {
 		as, ok := s.(*ast.AssignStmt)
 		if !ok || len(as.Lhs) != 1 || len(as.Rhs) != 1 {
 			return ""
@@ -70,9 +70,12 @@ func ruleLoopStack(c *Ctx) {
 			return ""
 		}
 		sl, ok := as.Rhs[0].(*ast.SliceExpr)
-		if ok && isSel(sl.X, recv, l.Sel.Name) && sl.Low == nil && sl.High != nil &&
-			strings.ReplaceAll(types.ExprString(sl.High), " ", "") == "len("+recv+"."+l.Sel.Name+")-1" {
-			return l.Sel.Name
+		if ok && isSel(sl.X, recv, l.Sel.Name) && sl.Low == nil && sl.High != nil {
+			// the new length, with single-assignment locals expanded: len(c.F)-1
+			high := strings.Trim(render(sl.High, defs, 0), "()")
+			if strings.ReplaceAll(types.ExprString(sl.High), " ", "") == "len("+recv+"."+l.Sel.Name+")-1" || high == "len("+recv+"."+l.Sel.Name+")-1" {
+				return l.Sel.Name
+			}
 		}
 		return ""
 	}
@@ -84,8 +87,9 @@ func ruleLoopStack(c *Ctx) {
 		}
 		recv := fd.Recv.List[0].Names[0].Name
 		var pops []string
+		defs := localDefs(fd)
 		for _, s := range fd.Body.List {
-			if f := isPop(recv, s); f != "" {
+			if f := isPop(recv, s, defs); f != "" {
 				pops = append(pops, f)
 			}
 		}
@@ -99,6 +103,7 @@ func ruleLoopStack(c *Ctx) {
 			continue
 		}
 		recv := fd.Recv.List[0].Names[0].Name
+		defs := localDefs(fd)
 		ast.Inspect(fd.Body, func(n ast.Node) bool {
 			cc, ok := n.(*ast.CaseClause)
 			if !ok {
@@ -112,7 +117,7 @@ func ruleLoopStack(c *Ctx) {
 					push[f]++
 					continue
 				}
-				if f := isPop(recv, s); f != "" {
+				if f := isPop(recv, s, defs); f != "" {
 					pop[f]++
 					continue
 				}
@@ -136,7 +141,7 @@ func ruleLoopStack(c *Ctx) {
 							push[f]++
 							condPop[f] += 0
 						}
-						if f := isPop(recv, ms); f != "" {
+						if f := isPop(recv, ms, defs); f != "" {
 							condPop[f]++
 						}
 					}
